@@ -106,12 +106,12 @@ def wrapper_case(pid, rng):
         else:
             x, f, it, fc, wf = diffev2(cost, x0, npop=npop, maxiter=maxiter, maxfun=maxfun, full_output=1, disp=0, **kw)
     except Exception as exc:
-        return [("wrapper/%s/raises" % which, "%s raised %r" % (which, exc), {"x0": x0})], which
+        return [("wrapper/%s/raises" % which, "%s raised %r" % (which, exc), {"x0": x0})], which, None
     x = [float(v) for v in np.ravel(x)]; f = float(np.ravel(f)[0])
     case = {"wrapper": which, "x0": x0, "cost": dsl.expr_sexp(cost_spec[1]), "penalty": dsl.expr_sexp(pen) if pen else None,
             "maxiter": maxiter, "maxfun": maxfun, "returned": [x, f, int(it), int(fc), int(wf)], "real_calls": len(calls)}
     if any(y != y for _, y in calls):
-        return [], which
+        return [], which, None
     if pid in ("C01",):
         if math.isfinite(f):
             if not any(common.same_vec(x, c[0]) for c in calls):
@@ -137,7 +137,19 @@ def wrapper_case(pid, rng):
             out.append(("wrapper/%s/warnflag" % which, "warnflag %d but iterations=%d (limit %d) funcalls=%d (limit %d)" % (wf, it, mi, fc, mf), case))
         if maxiter is not None and it > maxiter and which != "fmin_powell":
             out.append(("wrapper/%s/iterations-exceed" % which, "iterations %d > maxiter %d" % (it, maxiter), case))
-    return out, which
+        if which != "fmin_powell":
+            # the Lean control model's warnflag for the final counters under the limits in force
+            line = "C05 warn (evals %d) (gens %d) (maxiter %d) (maxfun %d)" % (fc, it, mi, mf)
+
+            def cmp(reply, wf=int(wf), which=which, case=case):
+                r = common.parse_reply(reply)
+                if r[0] != "ok":
+                    return [("wrapper/%s/model-%s" % (which, r[0]), "model replied %r" % (reply[:200],))]
+                if int(r[1]["warnflag"]) != wf:
+                    return [("wrapper/%s/warnflag-diverges" % which, "model warnflag %s, %s returned %d (iterations %d, funcalls %d, limits %r)" % (r[1]["warnflag"], which, wf, it, fc, case["limits_in_force"]))]
+                return []
+            return out, which, (line, cmp, case)
+    return out, which, None
 
 
 _ENS_CALLS = []
@@ -295,13 +307,16 @@ def run_shard(pid, seed, shard, ncases, tier, extra):
             for b in solvermodel.nm_branches(rep):
                 hist["nm-branch:%s" % b] = hist.get("nm-branch:%s" % b, 0) + 1
     # wrapper-level and initial-point cases
+    wlines = []
     for k in range(max(2, ncases // 4)):
         rng = case_rng(pid + "/wrap", seed, shard, k)
         if pid in ("C01", "C04", "C05"):
-            res, which = wrapper_case(pid, rng)
+            res, which, req = wrapper_case(pid, rng)
             hist["wrapper:" + which] = hist.get("wrapper:" + which, 0) + 1
             for key, what, case in res:
                 findings.append(Finding("monitor", key, what, case))
+            if req is not None:
+                wlines.append(req)
         if pid == "C01" and k % 3 == 0:
             res, tag = ensemble_case(rng)
             hist["ensemble:" + tag] = hist.get("ensemble:" + tag, 0) + 1
@@ -311,7 +326,14 @@ def run_shard(pid, seed, shard, ncases, tier, extra):
             hist["initial-points"] = hist.get("initial-points", 0) + 1
             for key, what, case in initial_points_case(rng):
                 findings.append(Finding("monitor", key, what, case))
-    return {"evaluations": evals, "nontrivial": nontrivial, "model_lines": len(lines), "findings": findings,
+    if wlines:
+        wreps = leandrv.run_driver([w[0] for w in wlines])
+        for (line, cmp, case), rep in zip(wlines, wreps):
+            hist["model:warn"] = hist.get("model:warn", 0) + 1
+            for key, what in cmp(rep):
+                c2 = dict(case); c2["request"] = line; c2["model_reply"] = rep[:400]
+                findings.append(Finding("correspondence", key, what, c2))
+    return {"evaluations": evals, "nontrivial": nontrivial, "model_lines": len(lines) + len(wlines), "findings": findings,
             "samples": samples, "hist": hist}
 
 
